@@ -1,5 +1,5 @@
 """E3 driver: python -m rtc.run --prop C01 --tier quick --seed 0 --out out.json     (runs on the real 3.7-3.13 interpreters)"""
-from __future__ import annotations
+
 
 import argparse
 import hashlib
@@ -50,7 +50,9 @@ def _unit_worker(args):
                               "msgs": ["%s: %s" % (type(e).__name__, e), traceback.format_exc()[-800:]]})
                 continue
             if msgs:
-                fails.append({"check": cname, "unit": uid, "path": list(path), "code_name": c.co_name, "msgs": msgs[:6], "recipe": recipe})
+                from . import findings
+                fails.append({"check": cname, "unit": uid, "path": list(path), "code_name": c.co_name, "msgs": msgs[:6], "recipe": recipe,
+                              "tags": findings.input_tags(c) + findings.failure_tags(msgs)})
         sigs.append(hashlib.md5(c.co_code + repr(c.co_names).encode() + repr(len(c.co_consts)).encode()).hexdigest()[:12])
     return uid, n, fails, sigs
 
